@@ -4,6 +4,7 @@ import (
 	"encoding/base64"
 	"errors"
 	"fmt"
+	"sort"
 	"strings"
 	"text/template"
 
@@ -226,6 +227,10 @@ func SprigFuncs(t *template.Template) template.FuncMap {
 		}
 	}
 	allowedFuncs["b64decMap"] = base64decodeMap
+	// sprig's keys/values return entries in Go map iteration order, which would make rendering
+	// a package non-deterministic. Replace them with variants ordered by key.
+	allowedFuncs["keys"] = sortedKeys
+	allowedFuncs["values"] = valuesSortedByKey
 
 	includedNames := map[string]int{}
 	// Include function executes a template with given data and returns the result as string.
@@ -250,6 +255,29 @@ func SprigFuncs(t *template.Template) template.FuncMap {
 	allowedFuncs["toYAML"] = toYAML
 	allowedFuncs["fromYAML"] = fromYAML
 	return allowedFuncs
+}
+
+// sortedKeys returns the keys of all given dicts, each dict's keys in ascending order.
+func sortedKeys(dicts ...map[string]any) []string {
+	k := []string{}
+	for _, dict := range dicts {
+		dk := make([]string, 0, len(dict))
+		for key := range dict {
+			dk = append(dk, key)
+		}
+		sort.Strings(dk)
+		k = append(k, dk...)
+	}
+	return k
+}
+
+// valuesSortedByKey returns the values of dict ordered by their keys.
+func valuesSortedByKey(dict map[string]any) []any {
+	values := make([]any, 0, len(dict))
+	for _, key := range sortedKeys(dict) {
+		values = append(values, dict[key])
+	}
+	return values
 }
 
 func base64decodeMap(data map[string]any) (
